@@ -370,6 +370,12 @@ class MapMonitors:
             iy = where.get(y) if y is not None else len(Q)
             if ix is None or iy is None:
                 continue
+            if ix >= iy:
+                # the rebase itself re-ordered the two tokens (a local replacement whose start maps
+                # to the far side of a concurrent change lands after content it used to precede):
+                # "between x and y" is then meaningless
+                self.probes["C08.neighbour_pairs_reordered"] += 1
+                continue
             for assoc in (-1, 1):
                 q = M.map(p, assoc)
                 self.probes["C08.neighbour_positions"] += 1
